@@ -212,7 +212,10 @@ def run(ctx):
             if pidx.get(pname) != ai + 1:
                 ctx.ob("R06.4", "do_exec.param:%s" % pname, False, de.loc(0), "do_exec parameter order changed; routing table must be re-confirmed")
                 continue
-            ctx.ob("R06.4", "route:config.%s" % field, M.strip(a[ai]) == ("field", cfg, field), fn.loc(bb), "do_exec.%s <- %s (must be config.%s)" % (pname, M.term_str(a[ai]), field))
+            # only-from query: the value derives from config.<field> and from no other field of the configuration
+            used = set()
+            M.contains(M.noref(a[ai]), lambda u: (u[0] == "field" and u[1] == cfg and used.add(u[2])) or False)
+            ctx.ob("R06.4", "route:config.%s" % field, used == {field}, fn.loc(bb), "do_exec.%s <- %s (must derive from config.%s only; config fields used: %s)" % (pname, M.term_str(a[ai])[:120], field, sorted(used)))
     # wrappers pass their arguments straight to libc
     for w, n in (("posix::setuid", 1), ("posix::setgid", 1), ("posix::setpgid", 2)):
         f = prog.one(w)
